@@ -112,11 +112,12 @@ def build() -> Tables:
     def _local_list(func, var):
         import ast as _ast
         src = (Path(REPO) / "src" / "config.py").read_text()
-        for node in _ast.walk(_ast.parse(src)):
-            if isinstance(node, _ast.FunctionDef) and node.name == func:
-                for sub in _ast.walk(node):
-                    if isinstance(sub, _ast.Assign) and any(isinstance(tg, _ast.Name) and tg.id == var for tg in sub.targets):
-                        return list(_ast.literal_eval(sub.value))
+        tree = _ast.parse(src)
+        scopes = [n for n in _ast.walk(tree) if isinstance(n, _ast.FunctionDef) and n.name == func] or [tree]   # helper renamed: any scope
+        for node in scopes:
+            for sub in _ast.walk(node):
+                if isinstance(sub, _ast.Assign) and any(isinstance(tg, _ast.Name) and tg.id.lower() == var for tg in sub.targets):
+                    return list(_ast.literal_eval(sub.value))
         raise KeyError(f"{func}.{var}")
 
     def _defaults():
@@ -149,12 +150,11 @@ def build() -> Tables:
     def rust_suffixes():
         import ast, inspect
         m = mod("src.linters.magic_numbers.rust_analyzer")
-        src = inspect.getsource(m.RustMagicNumberAnalyzer._strip_type_suffix)
-        import textwrap
-        tree = ast.parse(textwrap.dedent(src))
+        tree = ast.parse(inspect.getsource(m))      # wherever the suffix tuple lives in the module
         for n in ast.walk(tree):
-            if isinstance(n, ast.Assign) and isinstance(n.value, ast.Tuple) and all(isinstance(e, ast.Constant) for e in n.value.elts):
-                return [e.value for e in n.value.elts]
+            if isinstance(n, (ast.Tuple, ast.List)) and n.elts and all(isinstance(e, ast.Constant) and isinstance(e.value, str) for e in n.elts) \
+                    and {"u8", "f64"} <= {e.value for e in n.elts}:
+                return [e.value for e in n.elts]
         raise LookupError("suffix tuple not found")
     t.add("Magic", "rustSuffixes", "List String", rust_suffixes,
           ["u8", "u16", "u32", "u64", "u128", "usize", "i8", "i16", "i32", "i64", "i128", "isize", "f32", "f64"])
@@ -162,18 +162,18 @@ def build() -> Tables:
           lambda: sorted(int(x) for x in mod("src.linters.magic_numbers.config").DEFAULT_ALLOWED_NUMBERS if float(x).is_integer()))
     t.add("Magic", "defaultMaxSmallInteger", "Nat", lambda: mod("src.linters.magic_numbers.config").MagicNumberConfig().max_small_integer, 10)
     t.add("Magic", "tsTestMarkers", "List String",
-          lambda: _ast_list_in_function(mod("src.linters.magic_numbers.linter").MagicNumberRule._is_test_file),
+          lambda: _ast_list_in_module(mod("src.linters.magic_numbers.linter"), ".test."),
           [".test.", ".spec.", "test_", "_test.", "/tests/", "/test/"])
     def def_name_patterns(kind):
         import ast, inspect, textwrap
-        fn = mod("src.linters.magic_numbers.definition_detector")._matches_definition_filename
-        tree = ast.parse(textwrap.dedent(inspect.getsource(fn)))
+        # the whole module is searched, so that renaming or splitting the helper does not break the tie
+        tree = ast.parse(inspect.getsource(mod("src.linters.magic_numbers.definition_detector")))
         out = []
         for n in ast.walk(tree):
             if kind == "suffix" and isinstance(n, ast.Call) and isinstance(n.func, ast.Attribute) and n.func.attr == "endswith":
                 out += [a.value for a in n.args if isinstance(a, ast.Constant) and isinstance(a.value, str)]
             if kind == "exact" and isinstance(n, ast.Compare) and len(n.ops) == 1 and isinstance(n.ops[0], ast.Eq):
-                out += [c.value for c in n.comparators if isinstance(c, ast.Constant) and isinstance(c.value, str)]
+                out += [c.value for c in n.comparators if isinstance(c, ast.Constant) and isinstance(c.value, str) and c.value.endswith(".py")]
         if not out:
             raise LookupError("no definition-file name patterns found")
         return sorted(set(out))
@@ -227,6 +227,16 @@ def _ast_filter_candidates() -> list[tuple[str, str]]:
                 if len(n.args) > 1 and isinstance(n.args[1], ast.Constant):
                     out.add(("contains" if n.func.id.endswith("by_prefix") else "prefix", n.args[1].value))
     return sorted(out)
+
+
+def _ast_list_in_module(module, must_contain: str) -> list[str]:
+    """the string list/tuple literal of a module that contains `must_contain` (independent of which helper holds it)"""
+    import ast, inspect
+    for n in ast.walk(ast.parse(inspect.getsource(module))):
+        if isinstance(n, (ast.List, ast.Tuple)) and n.elts and all(isinstance(e, ast.Constant) and isinstance(e.value, str) for e in n.elts) \
+                and must_contain in [e.value for e in n.elts]:
+            return [e.value for e in n.elts]
+    raise LookupError(f"no string list literal containing {must_contain!r}")
 
 
 def _ast_list_in_function(fn) -> list[str]:
